@@ -22,6 +22,7 @@ NJ_ASSUME = ['specs/ninja.py (ninja lexing of values and paths) is written from 
              'available in the sandbox, so this spec is NOT tool-validated']
 
 TABLE['C02'] = {
+    'validate': ['sh'],
     'modules': ['contracts.ninja', 'contracts.bounded_cmd'],
     'level': 'proof',
     'assumptions': SH_ASSUME + NJ_ASSUME,
@@ -40,6 +41,7 @@ MK_ASSUME = ['specs/make.py (GNU make reading of recipe lines, := values, target
              'run-length transducer of pyvc/models.py f2_fold (cross-checked against CPython re on every run)']
 
 TABLE['C01'] = {
+    'validate': ['sh', 'make'],
     'modules': ['contracts.make', 'contracts.bounded_cmd'],
     'level': 'proof',
     'assumptions': SH_ASSUME + MK_ASSUME,
@@ -53,6 +55,7 @@ TABLE['C01'] = {
 }
 
 TABLE['C04'] = {
+    'validate': ['make'],
     'modules': ['contracts.make', 'contracts.ninja', 'contracts.bounded_cmd'],
     'level': 'proof',
     'assumptions': SH_ASSUME + MK_ASSUME + NJ_ASSUME + [
